@@ -15,6 +15,7 @@ type c18Gen struct {
 	ansi    bool // "x" is an identifier (the text must be parsed with ansiQuotes)
 	safe    bool // evaluation-safe expressions only: no tables, sub-queries, cursors, aggregates
 	nofield bool // field references are replaced by variables (inside a substantial_value)
+	tbl     bool // field references are columns of the fixed tables wt / wt2 (queries that are evaluated)
 	used    struct{ prep, dq bool }
 }
 
@@ -124,6 +125,13 @@ func (g *c18Gen) fieldRef() string {
 	if g.nofield {
 		return g.variable()
 	}
+	if g.tbl {
+		c := g.pick("id", "g", "n", "n", "f", "s", "ID", "`n`")
+		if g.p(4) {
+			return "wt." + c
+		}
+		return c
+	}
 	switch g.r.Intn(8) {
 	case 0:
 		return g.ident() + "." + g.ident()
@@ -183,6 +191,11 @@ func (g *c18Gen) orderBy(d int) string {
 	for i := 0; i <= g.r.Intn(2); i++ {
 		items = append(items, g.value(d-1)+g.pick("", " ASC", " DESC", " asc")+g.pick("", "", " NULLS FIRST", " NULLS LAST"))
 	}
+	if g.tbl {
+		// evaluated queries: a total order (id is unique), so that the result does not depend on how csvq
+		// happens to arrange ties
+		items = append(items, g.pick("id", "id DESC", "wt.id"))
+	}
 	return "ORDER BY " + strings.Join(items, ", ")
 }
 
@@ -195,16 +208,27 @@ func (g *c18Gen) aggregate(d int) string {
 	case 2:
 		return "VAR(" + g.pick("", "DISTINCT ") + g.fieldRef() + ")"
 	case 3:
-		return g.pick("useraggr", "useraggr", "`user aggr`") + "(" + g.pick("", "DISTINCT ") + g.fieldRef() + ")"
+		return g.userAggr() + "(" + g.pick("", "DISTINCT ") + g.fieldRef() + ")"
 	default:
 		return g.pick("MIN", "MAX", "SUM", "AVG", "STDEV", "STDEVP", "VARP", "MEDIAN", "sum", "Max") + "(" + g.pick("", "", "DISTINCT ") + g.value(d-1) + ")"
 	}
 }
 
+// userAggr: a user-defined aggregate name (quoted or not); an ordinary one where the query is evaluated
+func (g *c18Gen) userAggr() string {
+	if g.tbl {
+		return g.pick("SUM", "COUNT", "AVG")
+	}
+	return g.pick("useraggr", "useraggr", "`user aggr`")
+}
+
 func (g *c18Gen) analytic(d int) string {
 	part := g.pick("", "PARTITION BY "+g.fieldRef()+" ", "PARTITION BY "+g.fieldRef()+", "+g.fieldRef()+" ")
 	ord := g.pick("", g.orderBy(d))
-	frame := g.pick("", "", " ROWS UNBOUNDED PRECEDING", " ROWS 2 PRECEDING", " ROWS CURRENT ROW", " ROWS BETWEEN 1 PRECEDING AND 1 FOLLOWING", " ROWS BETWEEN UNBOUNDED PRECEDING AND CURRENT ROW", " ROWS BETWEEN CURRENT ROW AND UNBOUNDED FOLLOWING")
+	if g.tbl {
+		ord = g.orderBy(d)
+	}
+	frame := g.pick("", "", " ROWS UNBOUNDED PRECEDING", " ROWS 2 PRECEDING", " ROWS CURRENT ROW", " ROWS BETWEEN 1 PRECEDING AND 1 FOLLOWING", " ROWS BETWEEN UNBOUNDED PRECEDING AND CURRENT ROW", " ROWS BETWEEN CURRENT ROW AND UNBOUNDED FOLLOWING", g.frame(), g.frame(), g.frame())
 	over := func(withFrame bool) string {
 		o := ord
 		if withFrame && frame != "" {
@@ -224,10 +248,24 @@ func (g *c18Gen) analytic(d int) string {
 	case 4:
 		return g.pick("LAG", "LEAD", "lag") + "(" + g.fieldRef() + g.pick("", ", 1", ", 1, 0") + ")" + g.pick("", " IGNORE NULLS") + over(false)
 	case 5:
-		return g.pick("COUNT(*)", "COUNT(DISTINCT "+g.fieldRef()+")", "SUM("+g.fieldRef()+")", "AVG(DISTINCT "+g.fieldRef()+")", "useraggr("+g.fieldRef()+")", "`user aggr`("+g.fieldRef()+")", "VAR("+g.fieldRef()+")") + over(true)
+		return g.pick("COUNT(*)", "COUNT(DISTINCT "+g.fieldRef()+")", "SUM("+g.fieldRef()+")", "AVG(DISTINCT "+g.fieldRef()+")", g.pick("MIN", "MAX", "MEDIAN")+"("+g.fieldRef()+")", g.userAggr()+"("+g.fieldRef()+")", "VAR("+g.fieldRef()+")") + over(true)
 	default:
-		return g.pick("LISTAGG", "JSON_AGG") + "(" + g.fieldRef() + g.pick("", ", ';'") + ")" + over(false)
+		return g.pick("LISTAGG("+g.fieldRef()+g.pick("", ", ';'")+")", "JSON_AGG("+g.fieldRef()+")") + over(false)
 	}
+}
+
+// frame: a windowing clause of every shape the grammar has, with boundary offsets (0, 1, large)
+func (g *c18Gen) frame() string {
+	off := func() string { return g.pick("0", "0", "1", "2", "3", "1000000", "9223372036854775807") }
+	if g.tbl {
+		off = func() string { return g.pick("0", "0", "1", "2", "3", "1000000") }
+	}
+	if g.p(3) {
+		return " ROWS " + g.pick("UNBOUNDED PRECEDING", off()+" PRECEDING", "CURRENT ROW")
+	}
+	lo := g.pick("UNBOUNDED PRECEDING", off()+" PRECEDING", off()+" FOLLOWING", "CURRENT ROW")
+	hi := g.pick("UNBOUNDED FOLLOWING", off()+" PRECEDING", off()+" FOLLOWING", "CURRENT ROW")
+	return " ROWS BETWEEN " + lo + " AND " + hi
 }
 
 func (g *c18Gen) caseExpr(d int) string {
@@ -250,6 +288,9 @@ func (g *c18Gen) subquery(d int) string { return "(" + g.selectQuery(d-1) + ")" 
 
 // atom: something that needs no parentheses as an operand
 func (g *c18Gen) atom(d int) string {
+	if g.tbl && g.p(3) {
+		return g.fieldRef()
+	}
 	if d <= 0 {
 		if g.safe || g.p(2) {
 			return g.prim()
@@ -485,14 +526,14 @@ func (g *c18Gen) fields(d int) string {
 }
 
 func (g *c18Gen) limit(d int) string {
-	off := g.pick("", "", " OFFSET "+g.pick("1", "2", "@a", "(1 + 1)")+g.pick("", " ROW", " ROWS"))
+	off := g.pick("", "", " OFFSET "+g.pick("0", "1", "2", "@a", "(1 + 1)", "1000000")+g.pick("", " ROW", " ROWS"))
 	switch g.r.Intn(6) {
 	case 0:
 		return strings.TrimSpace(off)
 	case 1:
-		return strings.TrimSpace(off + " FETCH " + g.pick("FIRST", "NEXT") + " " + g.pick("1", "3", "@a", "50") + g.pick(" ROW", " ROWS", " PERCENT") + g.pick("", " ONLY", " WITH TIES"))
+		return strings.TrimSpace(off + " FETCH " + g.pick("FIRST", "NEXT") + " " + g.pick("0", "1", "3", "@a", "50", "100") + g.pick(" ROW", " ROWS", " PERCENT") + g.pick("", " ONLY", " WITH TIES"))
 	default:
-		return "LIMIT " + g.pick("1", "10", "@a", "(2 * 3)", "50.5") + g.pick("", "", " PERCENT", " ROWS", " ROW") + g.pick("", "", " ONLY", " WITH TIES") + off
+		return "LIMIT " + g.pick("0", "1", "10", "@a", "(2 * 3)", "50.5", "100", "0.0") + g.pick("", "", " PERCENT", " ROWS", " ROW") + g.pick("", "", " ONLY", " WITH TIES") + off
 	}
 }
 
@@ -718,13 +759,200 @@ func (g *c18Gen) stmt(d int, loop, fn bool) string {
 	}
 }
 
+// ---- queries over the fixed tables wt (id, g, n, f, s) and wt2 (id, v): these are evaluated ----------
+func (g *c18Gen) tblOrderBy() string {
+	var items []string
+	for i := 0; i <= g.r.Intn(2); i++ {
+		items = append(items, g.pick("id", "n", "g", "s", "f", "n % 3", "-n", "wt.id", "1", "2")+g.pick("", " ASC", " DESC", " DESC")+g.pick("", "", " NULLS FIRST", " NULLS LAST"))
+	}
+	items = append(items, g.pick("id", "id DESC", "wt.id ASC"))
+	return " ORDER BY " + strings.Join(items, ", ")
+}
+
+func (g *c18Gen) tblLimit() string {
+	switch g.r.Intn(8) {
+	case 0:
+		return " OFFSET " + g.pick("0", "1", "3", "100") + g.pick("", " ROW", " ROWS")
+	case 1:
+		return g.pick("", " OFFSET "+g.pick("0", "2")) + " FETCH " + g.pick("FIRST", "NEXT") + " " + g.pick("0", "1", "3", "50", "100") + g.pick(" ROW", " ROWS", " PERCENT") + g.pick("", " ONLY", " WITH TIES")
+	default:
+		return " LIMIT " + g.pick("0", "1", "2", "3", "50", "100", "0.0", "33.4", "1000000") + g.pick("", "", " PERCENT", " ROWS") + g.pick("", "", " ONLY", " WITH TIES") + g.pick("", "", " OFFSET "+g.pick("0", "1", "4"))
+	}
+}
+
+func (g *c18Gen) tblWhere() string {
+	switch g.r.Intn(9) {
+	case 0:
+		return " WHERE n IN (" + g.pick("0", "1", "NULL", "-1") + ")"
+	case 1:
+		return " WHERE n" + g.pick(" ", " NOT ") + "BETWEEN " + g.pick("0", "-1", "1") + " AND " + g.pick("0", "2", "5")
+	case 2:
+		return " WHERE s" + g.pick(" ", " NOT ") + "LIKE " + g.pick("'%'", "'_'", "''", "'a%'", "'%\\_%'")
+	case 3:
+		return " WHERE g IS " + g.pick("", "NOT ") + "NULL"
+	case 4:
+		return " WHERE id " + g.pick("=", "<", ">=", "<>") + g.pick(" ANY ", " ALL ") + "(SELECT id FROM wt2" + g.pick("", " WHERE v > 0", " LIMIT 0") + ")"
+	case 5:
+		return " WHERE " + g.pick("", "NOT ") + "EXISTS (SELECT 1 FROM wt2 WHERE wt2.id = wt.id" + g.pick("", " AND v = 0", " LIMIT 0") + ")"
+	default:
+		return " WHERE " + g.value(2)
+	}
+}
+
+func (g *c18Gen) tableQuery() string {
+	g.tbl, g.safe = true, true
+	dist := g.pick("", "", "", "DISTINCT ")
+	switch g.r.Intn(10) {
+	case 0, 1: // grouped
+		aggs := []string{"COUNT(*)", "COUNT(n)", "COUNT(DISTINCT n)", "SUM(n)", "MIN(s)", "MAX(f)", "AVG(n)", "MEDIAN(n)", "LISTAGG(s, ',') WITHIN GROUP (ORDER BY id)", "LISTAGG(DISTINCT s)", "JSON_AGG(n)", "SUM(n) + 0", "COUNT(*) * 0", "SUM(n * 0)"}
+		var fs []string
+		for i := 0; i <= g.r.Intn(3); i++ {
+			fs = append(fs, aggs[g.r.Intn(len(aggs))])
+		}
+		key := g.pick("g", "n", "g, n")
+		q := "SELECT " + key + ", " + strings.Join(fs, ", ") + " FROM wt" + g.pick("", g.tblWhere()) + " GROUP BY " + key
+		if g.p(2) {
+			q += " HAVING " + aggs[g.r.Intn(6)] + " " + g.pick(">", ">=", "=", "<>") + " " + g.pick("0", "1", "2")
+		}
+		if g.p(3) {
+			return q
+		}
+		return q + g.pick(" ORDER BY 1, 2", " ORDER BY 1 DESC NULLS LAST, 2") + g.pick("", "", g.tblLimit())
+	case 2: // set operations
+		a := "SELECT " + g.pick("n", "g", "id", "n, g") + " FROM wt" + g.pick("", g.tblWhere())
+		b := strings.Replace(strings.Replace(a, " FROM wt", " FROM wt AS u", 1), "wt.id", "u.id", -1)
+		if g.p(2) {
+			b = "SELECT " + g.pick("v", "id") + " FROM wt2"
+			a = "SELECT " + g.pick("n", "id") + " FROM wt"
+		}
+		ob := g.pick(" ORDER BY 1", " ORDER BY 1 DESC")
+		if strings.HasPrefix(a, "SELECT n, g") {
+			ob += ", 2"
+		}
+		q := a + g.pick(" UNION ", " UNION ALL ", " INTERSECT ", " EXCEPT ", " EXCEPT ALL ", " INTERSECT ALL ") + b
+		if g.p(3) {
+			return q
+		}
+		return q + ob + g.pick("", g.tblLimit())
+	case 3: // joins
+		j := g.pick("wt JOIN wt2 ON wt.id = wt2.id", "wt LEFT JOIN wt2 ON wt.id = wt2.id AND wt2.v > 0", "wt RIGHT OUTER JOIN wt2 USING (id)", "wt NATURAL JOIN wt2", "wt FULL JOIN wt2 ON wt.n = wt2.v", "wt CROSS JOIN wt2", "wt, wt2",
+			"wt JOIN wt2 ON wt.id = wt2.id + 0", "wt a JOIN wt b ON a.n = b.n AND a.id < b.id", "wt, LATERAL (SELECT v FROM wt2 WHERE wt2.id = wt.id) l")
+		f := g.pick("wt.id, wt2.v", "*", "wt.n, wt2.v, wt.n + wt2.v", "COUNT(*)")
+		if strings.Contains(j, " a JOIN ") {
+			f = g.pick("a.id, b.id", "a.n, b.s", "COUNT(*)")
+		} else if strings.Contains(j, "LATERAL") {
+			f = g.pick("id, v", "n, l.v")
+		} else if strings.Contains(j, "USING") || strings.Contains(j, "NATURAL") {
+			f = g.pick("id, v", "*", "n, v")
+		}
+		q := "SELECT " + f + " FROM " + j
+		if !strings.Contains(f, "COUNT") {
+			q += g.pick("", " ORDER BY 1, 2", " ORDER BY 1 DESC, 2")
+		}
+		return q
+	case 4: // derived table / CTE
+		inner := "SELECT id, n, g FROM wt" + g.pick("", g.tblWhere()) + g.pick("", g.tblOrderBy()+g.tblLimit())
+		if g.p(2) {
+			return "WITH c (a, b, c) AS (" + inner + ") SELECT a, b" + g.pick("", ", c") + " FROM c" + g.pick("", " WHERE b IS NOT NULL", " ORDER BY a DESC", " ORDER BY b NULLS LAST, a LIMIT 3")
+		}
+		return "SELECT " + dist + g.pick("sq.id", "sq.n, sq.g", "*") + " FROM (" + inner + ") sq" + g.pick("", " ORDER BY 1", " WHERE sq.n > 0")
+	default: // plain, with scalar expressions and analytic functions in the select list
+		var fs []string
+		for i := 0; i <= g.r.Intn(3); i++ {
+			switch g.r.Intn(4) {
+			case 0:
+				fs = append(fs, g.fieldRef())
+			case 1, 2:
+				fs = append(fs, g.analytic(2))
+			default:
+				fs = append(fs, g.value(2)+g.pick("", "", " AS x"+fmt.Sprint(i)))
+			}
+		}
+		q := "SELECT " + dist + strings.Join(fs, ", ") + " FROM wt" + g.pick("", " AS wt", "") + g.pick("", "", g.tblWhere())
+		if dist != "" || g.p(3) {
+			return q
+		}
+		return q + g.tblOrderBy() + g.pick("", "", g.tblLimit())
+	}
+}
+
+// c18BoundaryQueries: queries over wt / wt2 with the boundary literals (0, 1, a large number, an empty
+// text, a one-element list) in every place of a query that String() prints: every shape of window
+// frame, LIMIT / OFFSET / FETCH, analytic function arguments, IN lists, BETWEEN, SUBSTRING, CASE ...
+// all = the whole cross product; otherwise a seeded sample of the frames
+func c18BoundaryQueries(r *rand.Rand, all bool) []string {
+	var qs []string
+	offs := []string{"0", "1", "2", "1000000"}
+	lows, highs := []string{"UNBOUNDED PRECEDING", "CURRENT ROW"}, []string{"UNBOUNDED FOLLOWING", "CURRENT ROW"}
+	for _, o := range offs {
+		lows = append(lows, o+" PRECEDING", o+" FOLLOWING")
+		highs = append(highs, o+" PRECEDING", o+" FOLLOWING")
+	}
+	var frames []string
+	for _, o := range offs {
+		frames = append(frames, "ROWS "+o+" PRECEDING")
+	}
+	frames = append(frames, "ROWS UNBOUNDED PRECEDING", "ROWS CURRENT ROW")
+	for _, l := range lows {
+		for _, h := range highs {
+			frames = append(frames, "ROWS BETWEEN "+l+" AND "+h)
+		}
+	}
+	fns := []string{"SUM(n)", "COUNT(*)", "LISTAGG(s, '')", "FIRST_VALUE(n)", "LAST_VALUE(s)", "NTH_VALUE(n, 1)", "MAX(f)", "COUNT(DISTINCT g)", "AVG(n)", "MIN(id)"}
+	for i, f := range frames {
+		if !all && r.Intn(2) != 0 {
+			continue
+		}
+		fn := fns[i%len(fns)]
+		part := []string{"", "PARTITION BY g "}[i/len(fns)%2]
+		if strings.HasPrefix(fn, "LISTAGG") {
+			// LISTAGG takes no windowing clause: the aggregate form of the same frame test
+			fn = "SUM(id)"
+		}
+		qs = append(qs, "SELECT id, "+fn+" OVER ("+part+"ORDER BY id "+f+") FROM wt ORDER BY id")
+	}
+	for _, l := range []string{"LIMIT 0", "LIMIT 1", "LIMIT 100", "LIMIT 0 PERCENT", "LIMIT 50 PERCENT", "LIMIT 100 PERCENT", "LIMIT 0 WITH TIES", "LIMIT 1 WITH TIES", "LIMIT 2 ROWS ONLY", "LIMIT 0.0 PERCENT",
+		"LIMIT 3 OFFSET 0", "LIMIT 3 OFFSET 1", "LIMIT 0 OFFSET 0", "OFFSET 0", "OFFSET 1 ROW", "OFFSET 100 ROWS", "FETCH FIRST 0 ROWS ONLY", "FETCH FIRST 1 ROW ONLY", "OFFSET 0 FETCH NEXT 2 ROWS WITH TIES",
+		"FETCH FIRST 0 PERCENT ONLY", "FETCH NEXT 50 PERCENT WITH TIES", "OFFSET 2 FETCH FIRST 100 PERCENT ONLY"} {
+		qs = append(qs, "SELECT id, n FROM wt ORDER BY n NULLS LAST "+l, "SELECT n FROM wt ORDER BY n DESC "+l)
+	}
+	for _, e := range []string{"NTILE(1) OVER (ORDER BY id)", "NTILE(3) OVER (ORDER BY id DESC)", "LAG(n, 0) OVER (ORDER BY id)", "LAG(n, 1, 0) OVER (ORDER BY id)", "LEAD(n, 2, -1) OVER (PARTITION BY g ORDER BY id)",
+		"LAG(n) IGNORE NULLS OVER (ORDER BY id)", "NTH_VALUE(n, 1) OVER (ORDER BY id ROWS BETWEEN 0 PRECEDING AND 0 FOLLOWING)", "NTH_VALUE(n, 2) OVER (ORDER BY id ROWS BETWEEN 1 PRECEDING AND 1 FOLLOWING)",
+		"RANK() OVER (ORDER BY n NULLS FIRST)", "RANK() OVER (ORDER BY n NULLS LAST)", "DENSE_RANK() OVER (ORDER BY n DESC NULLS FIRST)", "ROW_NUMBER() OVER (PARTITION BY g ORDER BY n DESC, id)",
+		"CUME_DIST() OVER (ORDER BY n ASC)", "PERCENT_RANK() OVER (ORDER BY n DESC)", "LISTAGG(s, '') OVER (PARTITION BY g ORDER BY id DESC)", "LISTAGG(DISTINCT g, ', ') OVER ()", "JSON_AGG(n) OVER (PARTITION BY g)",
+		"COUNT(DISTINCT n) OVER (PARTITION BY g)", "SUM(DISTINCT n) OVER ()", "FIRST_VALUE(n) OVER (ORDER BY id DESC)", "LAST_VALUE(n) OVER (ORDER BY id ROWS BETWEEN CURRENT ROW AND 0 FOLLOWING)",
+		"n IN (0)", "n NOT IN (1)", "n IN (0, 1)", "(n, g) IN ((0, 'a'))", "n BETWEEN 0 AND 0", "n NOT BETWEEN 0 AND 1", "n = ANY (0)", "n <> ALL (0, 1)", "n > ALL (SELECT v FROM wt2 WHERE v IS NOT NULL)",
+		"SUBSTRING(s FROM 0)", "SUBSTRING(s FROM 1 FOR 0)", "SUBSTRING(s FROM 2 FOR 1)", "SUBSTRING(s FROM -1)", "SUBSTRING(s, 0, 1)", "CASE n WHEN 0 THEN 'z' END", "CASE WHEN n = 0 THEN 0 ELSE 1 END", "CASE n WHEN 0 THEN 'z' WHEN 1 THEN 'o' ELSE '' END",
+		"n + 0", "n - 0", "n * 1", "n / 1", "n % 1", "0 - n", "-n", "+n", "- -n", "-(-n)", "n || ''", "'' || s || ''", "NOT n = 0", "!(n = 0)", "n = 0 OR n = 1 AND g = 'a'", "(n = 0 OR n = 1) AND g = 'a'", "n IS NULL", "n IS NOT NULL", "s IS NOT TRUE",
+		"s LIKE ''", "s LIKE '%'", "s NOT LIKE '_'", "s LIKE '\\%'", "(g = 'a') IS UNKNOWN", "COALESCE(n, 0)", "NULLIF(n, 0)", "IF(n = 0, 0, 1)", "REPLACE(s, ' ', '')", "f * 1.0", "f + 0.0", "f = -0", "1e0 * n", "007 + n", "n < 9223372036854775807", "n + 9223372036854775808",
+		"(SELECT COUNT(*) FROM wt2 WHERE wt2.id = wt.id)", "EXISTS (SELECT 1 FROM wt2 WHERE wt2.id = wt.id LIMIT 0)", "(SELECT v FROM wt2 WHERE wt2.id = wt.id ORDER BY v DESC LIMIT 1)", "(SELECT MAX(v) FROM wt2 WHERE v > 0 OFFSET 0)"} {
+		qs = append(qs, "SELECT id, "+e+" FROM wt ORDER BY id")
+	}
+	for _, q := range []string{"SELECT g, COUNT(*) FROM wt GROUP BY g HAVING COUNT(*) > 0 ORDER BY g NULLS FIRST", "SELECT g, COUNT(*) FROM wt GROUP BY g HAVING COUNT(*) > 1 ORDER BY g DESC NULLS FIRST",
+		"SELECT g, LISTAGG(s, '') WITHIN GROUP (ORDER BY id DESC) FROM wt GROUP BY g ORDER BY 1", "SELECT g, LISTAGG(DISTINCT n, '|') WITHIN GROUP (ORDER BY n NULLS LAST) FROM wt GROUP BY g ORDER BY 1",
+		"SELECT DISTINCT n FROM wt ORDER BY 1", "SELECT n FROM wt UNION SELECT v FROM wt2 ORDER BY 1", "SELECT n FROM wt UNION ALL SELECT v FROM wt2 ORDER BY 1", "SELECT n FROM wt EXCEPT SELECT v FROM wt2 ORDER BY 1",
+		"SELECT n FROM wt EXCEPT ALL SELECT v FROM wt2 ORDER BY 1", "SELECT n FROM wt INTERSECT ALL SELECT v FROM wt2 ORDER BY 1", "SELECT n FROM wt INTERSECT SELECT v FROM wt2 UNION SELECT 5 ORDER BY 1",
+		"SELECT n FROM wt UNION (SELECT v FROM wt2 INTERSECT SELECT 0) ORDER BY 1", "(SELECT n FROM wt UNION SELECT v FROM wt2) EXCEPT SELECT 0 ORDER BY 1",
+		"SELECT wt.id, v FROM wt LEFT JOIN wt2 ON wt.id = wt2.id ORDER BY 1, 2", "SELECT wt.id, v FROM wt RIGHT JOIN wt2 ON wt.id = wt2.id ORDER BY 1, 2", "SELECT wt.id, v FROM wt FULL OUTER JOIN wt2 ON wt.id = wt2.id ORDER BY 1, 2",
+		"SELECT wt.id, v FROM wt INNER JOIN wt2 ON wt.id = wt2.id ORDER BY 1, 2", "SELECT id, v FROM wt NATURAL LEFT JOIN wt2 ORDER BY 1, 2", "SELECT id, v FROM wt JOIN wt2 USING (id) ORDER BY 1, 2", "SELECT COUNT(*) FROM wt CROSS JOIN wt2",
+		"SELECT id, v FROM wt, LATERAL (SELECT v FROM wt2 WHERE wt2.id = wt.id ORDER BY v LIMIT 1) l ORDER BY 1", "SELECT id, v FROM wt LEFT JOIN LATERAL (SELECT v FROM wt2 WHERE wt2.id = wt.id) l ON TRUE ORDER BY 1, 2",
+		"WITH RECURSIVE t (n) AS (SELECT 0 UNION ALL SELECT n + 1 FROM t WHERE n < 3) SELECT n FROM t", "WITH c AS (SELECT id FROM wt LIMIT 0) SELECT COUNT(*) FROM c", "SELECT 1 WHERE FALSE", "SELECT 1 FROM DUAL",
+		"SELECT id FROM wt WHERE n = 0 OR n IS NULL ORDER BY id DESC", "SELECT id FROM wt ORDER BY n IS NULL, n, id", "SELECT id FROM wt ORDER BY g ASC NULLS LAST, n DESC NULLS FIRST, id", "SELECT id FROM wt ORDER BY g DESC NULLS LAST, id ASC"} {
+		qs = append(qs, q)
+	}
+	return qs
+}
+
 // c18Corpus builds n valid programs of the four kinds, each tagged with the modes it is written for
 func c18Corpus(r *rand.Rand, n int) []c18Input {
 	var out []c18Input
 	for i := 0; i < n; i++ {
 		g := &c18Gen{r: r, prep: r.Intn(4) == 0, ansi: r.Intn(3) == 0}
 		in := c18Input{Prep: -1, Ansi: -1}
-		switch i % 8 {
+		switch i % 10 {
+		case 8, 9:
+			g.prep = false
+			in.Src, in.Origin, in.Table = g.tableQuery(), "corpus-table-query", true
 		case 0, 1:
 			g.safe = true
 			var fs []string
@@ -762,6 +990,9 @@ func c18Corpus(r *rand.Rand, n int) []c18Input {
 			in.Ansi = 0
 		}
 		out = append(out, in)
+	}
+	for _, q := range c18BoundaryQueries(r, n > 2000) {
+		out = append(out, c18Input{Src: q, Origin: "corpus-boundary-query", Table: true, Ordered: strings.Contains(q, " ORDER BY id") && !strings.Contains(q, "LIMIT"), Prep: 0, Ansi: 0})
 	}
 	return out
 }
